@@ -170,9 +170,11 @@ def gen_field(rng, name, uid, p_hook):
     return f
 
 
-def gen_spec(rng, uid, base):
-    """base: a Built or None."""
-    if base is not None and base.spec["kind"] == "attrs" and rng.random() < 0.22:
+def gen_spec(rng, uid, base, force=None):
+    """base: a Built or None.  force: overrides of a scenario template (see TEMPLATES)."""
+    force = force or {}
+    if force.get("kind") == "plain" or (not force and base is not None and base.spec["kind"] == "attrs"
+                                        and rng.random() < 0.22):
         return {"kind": "plain", "uid": uid, "base": base.spec}
     api = rng.choice(["attrs", "define"])
     s = {"kind": "attrs", "uid": uid, "api": api, "base": base.spec if base is not None else None}
@@ -195,7 +197,68 @@ def gen_spec(rng, uid, base):
         names = list(dict.fromkeys(names))
     p_hook = 0.12 if frozen_eff else 0.4
     s["fields"] = [gen_field(rng, n, uid, p_hook) for n in names]
+    # scenario overrides
+    for k_ in ("api", "slots", "frozen", "auto_detect", "user_setattr"):
+        if k_ in force:
+            s[k_] = force[k_]
+    hooks = force.get("hooks")
+    if hooks == "none":
+        s["on_setattr"] = "NO_OP" if s["api"] == "define" and rng.random() < 0.7 else None
+        if s["api"] == "define" and s["on_setattr"] is None:
+            for f in s["fields"]:
+                f["converter"], f["validator"] = None, False
+            if base is not None and base.cls is not None and any(
+                    a.validator is not None or a.converter is not None for a in attr.fields(base.cls)):
+                s["on_setattr"] = "NO_OP"
+        for f in s["fields"]:
+            f["on_setattr"] = None if rng.random() < 0.8 else "NO_OP"
+    elif hooks == "some":
+        if not s["fields"]:
+            s["fields"] = [gen_field(rng, rng.choice(NAMES), uid, 0.4)]
+        if rng.random() < 0.5:
+            s["on_setattr"] = rng.choice(["user", "list_user2", "list_uc", "frozen", "list_empty", "list_vf"])
+        else:
+            s["fields"][0]["on_setattr"] = rng.choice([t for t in OS_TAGS if t != "NO_OP"])
+    elif hooks == "convert_only":
+        # class-level setters.convert where every converting field also validates
+        s["on_setattr"] = "convert"
+        if not s["fields"]:
+            s["fields"] = [gen_field(rng, rng.choice(NAMES), uid, 0.0)]
+        for f in s["fields"]:
+            f["on_setattr"] = None
+            if f["converter"] is None and rng.random() < 0.7:
+                f["converter"] = rng.choice(CONV_KINDS[2:])
+            f["validator"] = f["converter"] is not None or f["validator"]
+    elif hooks == "explicit":
+        s["on_setattr"] = rng.choice([t for t in OS_TAGS + CLS_ONLY if t != "NO_OP"])
     return s
+
+
+# scenario templates: one dict of overrides per level, root first
+TEMPLATES = [
+    # hooked root, unhooked middle, unhooked leaf whose body writes an undetected __setattr__
+    [{"hooks": "some", "frozen": False, "user_setattr": False}, {"hooks": "none", "frozen": False, "user_setattr": False},
+     {"hooks": "none", "frozen": False, "user_setattr": True, "api": "attrs", "auto_detect": None, "slots": False}],
+    [{"hooks": "some", "frozen": False, "user_setattr": False}, {"hooks": "none", "frozen": False, "user_setattr": False},
+     {"hooks": "none", "frozen": False, "user_setattr": True}],
+    # slotted confused and what is defined below it
+    [{"hooks": "some", "frozen": False, "user_setattr": False}, {"kind": "plain"},
+     {"hooks": "none", "frozen": False, "slots": True, "user_setattr": False}, {"hooks": "none", "frozen": False}],
+    [{"hooks": "some", "frozen": False, "user_setattr": False}, {"kind": "plain"},
+     {"hooks": "none", "frozen": False, "slots": False, "user_setattr": False}, {"frozen": False}],
+    # frozen bases
+    [{"frozen": True, "hooks": "none", "user_setattr": False}, {"api": "define", "frozen": False, "hooks": "explicit"}],
+    [{"frozen": True, "hooks": "none", "user_setattr": False}, {"api": "define", "frozen": False}, {"frozen": False}],
+    [{"frozen": True, "hooks": "none", "user_setattr": False}, {"kind": "plain"}, {"frozen": False, "user_setattr": True}],
+    [{"frozen": True, "hooks": "some", "user_setattr": False}],
+    # own __setattr__ with and without hooks below a hooked class
+    [{"hooks": "some", "frozen": False, "user_setattr": False}, {"user_setattr": True, "auto_detect": True, "frozen": False}],
+    [{"hooks": "some", "frozen": False, "user_setattr": False},
+     {"user_setattr": True, "auto_detect": True, "frozen": False, "hooks": "none"}, {"hooks": "none", "frozen": False}],
+    # the builder's reset of class-level validate / convert
+    [{"hooks": "convert_only", "frozen": False, "user_setattr": False}],
+    [{"hooks": "none", "frozen": False}, {"hooks": "convert_only", "frozen": False, "user_setattr": False}],
+]
 
 
 def mk_user_setattr(tag):
@@ -646,11 +709,14 @@ def generate(tier, seed):
     uid = 0
     with _recorder():
         for ci in range(n_chains):
-            depth = rng.choice([1, 2, 2, 3, 3, 4])
+            template = TEMPLATES[(ci // 4) % len(TEMPLATES)] if ci % 4 == 3 else None
+            depth = len(template) if template else rng.choice([1, 2, 2, 3, 3, 4])
+            if template:
+                _dist["scenario_chains"] += 1
             bt = None
             for level in range(depth):
                 uid += 1
-                spec = gen_spec(rng, "%d" % uid, bt)
+                spec = gen_spec(rng, "%d" % uid, bt, template[level] if template else None)
                 nb = Built(spec, bt)
                 note(nb)
                 if spec["kind"] == "attrs":
